@@ -336,6 +336,10 @@ class MonitoredFocusList(MonitoredList[_T], typing.Generic[_T]):
         if focus is not None:
             return focus
 
+        if not self:
+            # nothing had the focus: the first new item gets it
+            return 0
+
         focus = self._focus
         if step < 0:
             # a descending slice covers the same positions as this ascending one
@@ -431,6 +435,7 @@ class MonitoredFocusList(MonitoredList[_T], typing.Generic[_T]):
         MonitoredFocusList([], focus=None)
         """
         if isinstance(i, slice):
+            y = list(y)  # any iterable may be assigned to a slice
             focus = self._adjust_focus_on_contents_modified(i, y)
         else:
             focus = self._adjust_focus_on_contents_modified(slice(i, i + 1 or None), [y])
@@ -482,9 +487,14 @@ class MonitoredFocusList(MonitoredList[_T], typing.Generic[_T]):
         >>> ml.extend((6,7,8))
         range(3, 3, 1) <- [6, 7, 8]
         """
+        items = list(items)  # any iterable may be given, also a one-pass iterator
         focus = self._adjust_focus_on_contents_modified(slice(len(self), len(self)), items)
         super().extend(items)
         self.focus = focus
+
+    def __iadd__(self, items: Iterable[_T]) -> Self:
+        self.extend(items)
+        return self
 
     def insert(self, index: int, item: _T) -> None:
         """
@@ -553,10 +563,11 @@ class MonitoredFocusList(MonitoredList[_T], typing.Generic[_T]):
         MonitoredFocusList([-3, -2, -1, 0, 1, 2, 3], focus=5)
         """
         if not self:
-            return None
+            return super().sort(**kwargs)
         value = self[self._focus]
         rval = super().sort(**kwargs)
-        self.focus = self.index(value)
+        # the focus follows the object itself, not the first item that compares equal to it
+        self.focus = next(i for i, item in enumerate(self) if item is value)
         return rval
 
     if hasattr(list, "clear"):
